@@ -3,10 +3,41 @@ import PsyVerif.Model.ArgOrderDoc
 import PsyVerif.Gen.ArgOrder
 /-! # C21 — LFRic kernel calls match the kernel interface for all metadata
 
-Model: `Model/ArgOrder.lean` (`walk` = `ArgOrdering.generate`, `callExpand` = `KernCallArgList`
-overrides WITH `fixes/C21-basis-shape-order.patch`, `stubExpand` = `KernStubArgList`),
-signature tables `Gen/ArgOrder.lean` regenerated from the real overrides on every run,
-`Model/ArgOrderDoc.lean` (`docOrder` = the documented rules for general-purpose kernels).
+**Mode: the model follows the FIXED code** (fix commits 41c6d86 basis/diff-basis arrays in `gh_shape`
+order, 45c0541 stub stencil-size rank, fcd21de `nfaces_re_h` declaration are in /repo).
+
+Model
+* `Model/ArgOrder.lean`: `Metadata`; `walk` = `ArgOrdering.generate` (every branch, incl. the
+  name-triggered boundary-condition kernels and the refusals); `callExpand` = `KernCallArgList`
+  overrides, `stubExpand` = `KernStubArgList` overrides (incl. the base-class no-ops the stub class
+  inherits), `accExpand` = `KernCallAccArgList` overrides; `callExpandPinned` = the caller before the fix.
+* `Gen/ArgOrder.lean`: per argument class (`Atom`) the type/kind/rank the PSy layer passes and the
+  stub declares, and the stub's intent — regenerated on every run from the real overrides on probe kernels.
+* `Model/ArgOrderDoc.lean`: `docOrderAll` = independent formalisation of the user guide's argument
+  rules for general-purpose, CMA assembly / application / matrix-matrix, inter-grid and domain kernels.
+
+Property theorems (section "The property" and below; everything above are helper lemmas)
+* `C21_agree`            call and stub agree position by position (count, type, kind, rank), ALL metadata
+                          for which a stub is produced; `C21_leaf_agree`, `C21_gen_consistent`,
+                          `C21_table_observed`, `C21_agree_observed` (table facts / non-vacuity),
+                          `C21_stub_refusal_iff` (exactly when there is no stub), `C21_intent` (stub intents =
+                          documented access→intent rule), `C21_nfaces_h_once`.
+* `C21_pinned_counterexample`  the statement is false of the caller before the fix (evaluator listed before a quadrature shape).
+* documented order: `C21_doc_partial` (general-purpose), `C21_doc_cma_assembly`, `C21_doc_cma_apply`,
+  `C21_doc_cma_matrix_matrix`, `C21_doc_intergrid`, `C21_doc_domain_partial` + `C21_doc_domain_whole_is_doc`,
+  summarised by `C21_doc_all_partial`; the full clause `C21_doc_all_statement` is FALSE
+  (`C21_doc_all_counterexample`), one witness theorem per documentation-vs-code difference:
+  `C21_doc_counterexample` (xory1d direction), `C21_doc_counterexample_diff_first`,
+  `C21_doc_cma_assembly_counterexample` (ncell_3d), `C21_doc_cma_apply_counterexample` (indirection maps),
+  `C21_doc_domain_counterexample` (whole dofmap), `C21_doc_refarray_type_counterexample` (normals documented integer).
+* OpenACC variant: `C21_acc_covers_arrays`, `C21_acc_only_call_arrays` (cell-column kernels: the data list
+  names exactly the device arrays behind the call's array arguments), `C21_acc_isArray_of_rank`,
+  `C21_acc_domain_counterexample` (domain kernels: the whole dofmap is missing from the list).
+
+Out of scope (named): user-supplied DoF kernels (the guide says unimplemented; PSy generation crashes),
+CMA kernels with `meta_mesh` (both generators crash), documented rules for the two boundary-condition
+kernels (none exist), CMA/inter-grid/domain kernels with basis/reference-element/mesh metadata (their
+sections are silent).  These are replayed as `robustness_observations` in the evidence.
 
 Quantification: every `Metadata` value (any number and combination of arguments, function
 spaces, shapes, properties); no size bound. -/
@@ -25,6 +56,7 @@ def Atom.wf : Atom → Bool
   | .fieldData dt acc => dt != .logical && acc != .sum
   | .opData acc | .cmaMatrix acc => acc == .read || acc == .write || acc == .readwrite
   | .scalar _ acc => acc == .read
+  | .opProxy => false     -- OpenACC data list only, never a kernel argument
   | _ => true
 
 def Call.wf : Call → Bool
@@ -412,6 +444,7 @@ theorem C21_table_observed : ∀ a : Atom, a.wf = true →
   cases a <;> first
     | exact ⟨rfl, fun _ => rfl⟩
     | exact ⟨rfl, fun h' => by simp [Atom.callerOnly] at h'⟩
+    | (exfalso; simp [Atom.wf] at h; done)
     | (rename_i x y; cases x <;> cases y <;> first | exact ⟨rfl, fun _ => rfl⟩ | (exfalso; simp [Atom.wf] at h; done))
     | (rename_i x; cases x <;> first | exact ⟨rfl, fun _ => rfl⟩ | (exfalso; simp [Atom.wf] at h; done))
 
@@ -465,6 +498,7 @@ theorem C21_intent : ∀ a : Atom, a.wf = true → a.callerOnly = false → Gen.
   cases a <;> first
     | rfl
     | (exfalso; simp [Atom.callerOnly] at hc; done)
+    | (exfalso; simp [Atom.wf] at h; done)
     | (rename_i x y; cases x <;> cases y <;> first | rfl | (exfalso; simp [Atom.wf] at h; done))
     | (rename_i x; cases x <;> first | rfl | (exfalso; simp [Atom.wf] at h; done))
 
@@ -604,7 +638,7 @@ theorem C21_doc_partial : ∀ md : Metadata, Valid md → docSide md = true →
       cases hq : md.qrShapes with
       | nil => rfl
       | cons x xs => simp [stubExpand, hq, List.flatMap_cons]
-    simp only [stubArgs, walk, List.flatMap_append, hargs, hfss, href, hmesh, hqr, noCma_cmaOp hcma',
+    simp only [docGeneral, stubArgs, walk, List.flatMap_append, hargs, hfss, href, hmesh, hqr, noCma_cmaOp hcma',
       hcma', hig', hbc', hop', hop2]
     cases md.hasLma <;> simp [stubExpand, List.flatMap_cons]
   · simp at hd
@@ -635,5 +669,788 @@ theorem C21_nfaces_h_once : ∀ p : RefProp,
     docOrder (meshWitness [p]) = some (stubArgs (meshWitness [p])) ∧
     callArgs (meshWitness [p]) = stubArgs (meshWitness [p]) := by
   intro p; cases p <;> decide
+
+/-! ### the documented order: CMA, inter-grid and domain kernels -/
+
+theorem plain_facts {md : Metadata} (h : md.plain = true) :
+    md.funcs = [] ∧ md.shapes = [] ∧ md.refelem = [] ∧ md.mesh = [] := by
+  simp only [Metadata.plain, Bool.and_eq_true, List.isEmpty_iff] at h
+  exact ⟨h.1.1.1, h.1.1.2, h.1.2, h.2⟩
+
+theorem plain_qrShapes {md : Metadata} (h : md.funcs = []) : md.qrShapes = [] := by
+  simp [Metadata.qrShapes, Metadata.evalShapes, Metadata.basisRequired, h]
+
+theorem cmaOp_hasCma {md : Metadata} (h : md.cmaOp ≠ .none) : md.hasCma = true := by
+  unfold Metadata.cmaOp at h
+  by_cases he : (md.args.filter Arg.isCma).isEmpty = true
+  · simp [he] at h
+  · unfold Metadata.hasCma
+    rw [List.any_eq_true]
+    have hne : md.args.filter Arg.isCma ≠ [] := by simpa [List.isEmpty_iff] using he
+    cases hf : md.args.filter Arg.isCma with
+    | nil => exact absurd hf hne
+    | cons a rest =>
+      have hm : a ∈ md.args.filter Arg.isCma := by rw [hf]; simp
+      rw [List.mem_filter] at hm
+      exact ⟨a, hm.1, hm.2⟩
+
+theorem hasCma_hasOperator {md : Metadata} (h : md.hasCma = true) : md.hasOperator = true := by
+  unfold Metadata.hasCma at h
+  unfold Metadata.hasOperator
+  rw [List.any_eq_true] at h ⊢
+  obtain ⟨a, ha, hc⟩ := h
+  exact ⟨a, ha, by simp [hc]⟩
+
+theorem section_cma {md : Metadata} {s : DocSection} (h : docSection md = some s)
+    (hs : s = .cmaAssembly ∨ s = .cmaApply ∨ s = .cmaMatrixMatrix) :
+    md.bc = .none ∧ md.isIntergrid = false ∧ md.operatesOn = .cellColumn ∧ md.plain = true ∧
+    ((s = .cmaAssembly ∧ md.cmaOp = .assembly) ∨ (s = .cmaApply ∧ md.cmaOp = .apply) ∨
+     (s = .cmaMatrixMatrix ∧ md.cmaOp = .matrixMatrix)) := by
+  unfold docSection at h
+  split at h
+  · simp at h
+  · rename_i h1
+    simp only [Bool.or_eq_true, not_or] at h1
+    have hbc : md.bc = .none := by simpa using h1.1
+    have hdof : md.operatesOn ≠ .dof := by simpa using h1.2
+    split at h
+    · split at h
+      · injection h with h; subst h; rcases hs with hs | hs | hs <;> cases hs
+      · simp at h
+    · rename_i hig
+      split at h
+      · split at h
+        · injection h with h; subst h; rcases hs with hs | hs | hs <;> cases hs
+        · simp at h
+      · rename_i hdom
+        have hcc : md.operatesOn = .cellColumn := by
+          cases hoo : md.operatesOn <;> simp_all
+        have hig' : md.isIntergrid = false := by simpa using hig
+        split at h
+        · injection h with h; subst h; rcases hs with hs | hs | hs <;> cases hs
+        · rename_i hc; split at h
+          · rename_i hp; injection h with h; subst h; exact ⟨hbc, hig', hcc, hp, Or.inl ⟨rfl, hc⟩⟩
+          · simp at h
+        · rename_i hc; split at h
+          · rename_i hp; injection h with h; subst h; exact ⟨hbc, hig', hcc, hp, Or.inr (Or.inl ⟨rfl, hc⟩)⟩
+          · simp at h
+        · rename_i hc; split at h
+          · rename_i hp; injection h with h; subst h; exact ⟨hbc, hig', hcc, hp, Or.inr (Or.inr ⟨rfl, hc⟩)⟩
+          · simp at h
+
+theorem cmaOperator_doc (md : Metadata) (acc : Access) (t f : FS) :
+    (argCalls (.cma acc t f)).flatMap (stubExpand md) = docCmaOperator acc t f := by
+  cases h : (t == f) <;> simp [argCalls, stubExpand, docCmaOperator, cmaParams, h, List.flatMap_cons, bne]
+
+theorem assembly_arg {md : Metadata} {a : Arg} (ho : a.isOp = false) (hx : a.notXory1d = true) :
+    (argCalls a).flatMap (stubExpand md) = docAssemblyArg a := by
+  cases a with
+  | field dt vec acc fs st m => exact arg_doc rfl hx
+  | op acc t f => simp [Arg.isOp] at ho
+  | cma acc t f => exact cmaOperator_doc md acc t f
+  | scalar dt acc => exact arg_doc rfl hx
+
+/-- side condition for assembly kernels: the (single) LMA operator is the first `meta_args` entry.
+Otherwise the documented single `ncell_3d` (rule 4) and the implemented `<op>_ncell_3d` directly
+before every LMA operator are at different positions. -/
+def lmaFirstOnly (md : Metadata) : Bool :=
+  match md.args with
+  | a :: rest => a.isOp && !rest.any Arg.isOp
+  | [] => false
+
+/-- **documented order, CMA assembly kernels** -/
+theorem C21_doc_cma_assembly : ∀ md : Metadata, docSide md = true → lmaFirstOnly md = true →
+    docSection md = some .cmaAssembly → stubArgs md = docAssembly md := by
+  intro md hside hl hsec
+  obtain ⟨hbc, hig, hoo, hp, hc⟩ := section_cma hsec (Or.inl rfl)
+  have hc : md.cmaOp = .assembly := by
+    rcases hc with ⟨_, h⟩ | ⟨h, _⟩ | ⟨h, _⟩
+    · exact h
+    · cases h
+    · cases h
+  have hcma : md.hasCma = true := cmaOp_hasCma (by rw [hc]; simp)
+  have hop : md.hasOperator = true := hasCma_hasOperator hcma
+  obtain ⟨hf, _, _, _⟩ := plain_facts hp
+  have hfss : (md.uniqueFss.flatMap (fsCalls md)).flatMap (stubExpand md)
+      = (dedup (md.args.flatMap Arg.spaces)).flatMap (docAssemblySpace md) := by
+    rw [flatMap_flatMap_c21]
+    apply flatMap_congr_mem
+    intro fs _
+    simp only [fsCalls, docAssemblySpace, hc, hig, hbc, Metadata.findFunc, hf, List.find?_nil, funcCalls,
+      List.flatMap_append]
+    by_cases h1 : md.fieldOnSpace fs = true <;> by_cases h2 : md.cmaOnSpace fs = true <;>
+      simp [h1, h2, stubExpand, List.flatMap_cons]
+  simp only [docSide, Bool.and_eq_true] at hside
+  have hargs : (md.args.flatMap argCalls).flatMap (stubExpand md)
+      = Atom.opNcell3d :: md.args.flatMap docAssemblyArg := by
+    unfold lmaFirstOnly at hl
+    cases hargs : md.args with
+    | nil => simp [hargs] at hl
+    | cons a rest =>
+      simp only [hargs, Bool.and_eq_true] at hl
+      have hrest : (rest.flatMap argCalls).flatMap (stubExpand md) = rest.flatMap docAssemblyArg := by
+        rw [flatMap_flatMap_c21]
+        apply flatMap_congr_mem
+        intro b hb
+        refine assembly_arg ?_ (List.all_eq_true.mp hside.1 b (by rw [hargs]; simp [hb]))
+        have := hl.2
+        simp only [Bool.not_eq_true', List.any_eq_false] at this
+        simpa using this b hb
+      cases a with
+      | op acc t f =>
+        simp [List.flatMap_cons, argCalls, stubExpand, docAssemblyArg, hrest]
+      | field dt vec acc fs st m => simp [Arg.isOp] at hl
+      | cma acc t f => simp [Arg.isOp] at hl
+      | scalar dt acc => simp [Arg.isOp] at hl
+  obtain ⟨_, _, hr, hm⟩ := plain_facts hp
+  have hq := plain_qrShapes hf
+  simp only [stubArgs, walk, docAssembly, List.flatMap_append, hargs, hfss, hc, hop, hcma, hig, hoo]
+  simp [hbc, hr, hm, hq, stubExpand, List.flatMap_cons]
+
+
+/-- structure of an application kernel (what `_validate_cma` enforces): plain fields and CMA
+operators only, and a field on every function space -/
+def validApply (md : Metadata) : Bool :=
+  md.args.all (fun a => match a with
+    | .field _ vec _ _ st _ => vec ≤ 1 && st == .none
+    | .cma .. => true
+    | _ => false) &&
+  md.uniqueFss.all md.fieldOnSpace
+
+/-- side condition for application kernels: the operator maps a space to itself (so there is one
+function space).  With two spaces the guide lists both indirection maps after all the
+ndf/undf/dofmap triples (rules 5, 6) while the code passes each with its space. -/
+def applySameSpace (md : Metadata) : Bool :=
+  match md.args.find? Arg.isCma with
+  | some (.cma _ t f) => t == f && md.uniqueFss == [t]
+  | _ => false
+
+theorem docIndirection_find : ∀ (args : List Arg) {acc : Access} {t f : FS},
+    args.find? Arg.isCma = some (.cma acc t f) →
+    docIndirection args = [Atom.indirectionMap] ++ (if t != f then [Atom.indirectionMap] else [])
+  | [], _, _, _, h => by simp at h
+  | a :: rest, acc, t, f, h => by
+    cases a with
+    | cma acc' t' f' =>
+      simp [List.find?, Arg.isCma] at h
+      obtain ⟨_, rfl, rfl⟩ := h
+      rfl
+    | field dt vec a2 fs st m =>
+      simp only [List.find?, Arg.isCma] at h
+      simpa [docIndirection] using docIndirection_find rest h
+    | op a2 t' f' =>
+      simp only [List.find?, Arg.isCma] at h
+      simpa [docIndirection] using docIndirection_find rest h
+    | scalar dt a2 =>
+      simp only [List.find?, Arg.isCma] at h
+      simpa [docIndirection] using docIndirection_find rest h
+
+/-- **documented order, CMA application / inverse-application kernels** -/
+theorem C21_doc_cma_apply : ∀ md : Metadata, validApply md = true → applySameSpace md = true →
+    docSection md = some .cmaApply → stubArgs md = docApply md := by
+  intro md hva hsame hsec
+  obtain ⟨hbc, hig, hoo, hp, hc⟩ := section_cma hsec (Or.inr (Or.inl rfl))
+  have hc : md.cmaOp = .apply := by
+    rcases hc with ⟨h, _⟩ | ⟨_, h⟩ | ⟨h, _⟩
+    · cases h
+    · exact h
+    · cases h
+  have hcma : md.hasCma = true := cmaOp_hasCma (by rw [hc]; simp)
+  have hop : md.hasOperator = true := hasCma_hasOperator hcma
+  obtain ⟨hf, _, hr, hm⟩ := plain_facts hp
+  have hq := plain_qrShapes hf
+  simp only [validApply, Bool.and_eq_true] at hva
+  unfold applySameSpace at hsame
+  cases hfind : md.args.find? Arg.isCma with
+  | none => simp [hfind] at hsame
+  | some a =>
+    cases a with
+    | cma acc t f =>
+      simp only [hfind, Bool.and_eq_true] at hsame
+      have htf : t = f := by simpa using hsame.1
+      have hu : md.uniqueFss = [t] := by simpa using hsame.2
+      subst htf
+      have hmem : Arg.cma acc t t ∈ md.args := List.mem_of_find?_eq_some hfind
+      have hcon : md.cmaOnSpace t = true := by
+        unfold Metadata.cmaOnSpace
+        rw [List.any_eq_true]
+        exact ⟨_, hmem, by simp [Arg.isCma, Arg.spaces]⟩
+      have hfo : md.fieldOnSpace t = true := by
+        have := List.all_eq_true.mp hva.2 t (by rw [hu]; simp)
+        exact this
+      have hargs : (md.args.flatMap argCalls).flatMap (stubExpand md) = md.args.flatMap docApplyArg := by
+        rw [flatMap_flatMap_c21]
+        apply flatMap_congr_mem
+        intro b hb
+        have hb' := List.all_eq_true.mp hva.1 b hb
+        cases b with
+        | field dt vec a2 fs st m =>
+          simp only [Bool.and_eq_true] at hb'
+          have hst : st = .none := by simpa using hb'.2
+          have hv : ¬ vec > 1 := by have := hb'.1; simp at this; omega
+          subst hst
+          simp [argCalls, stencilCalls, docApplyArg, stubExpand, hv, List.flatMap_cons]
+        | cma a2 t' f' => exact cmaOperator_doc md a2 t' f'
+        | op a2 t' f' => simp at hb'
+        | scalar dt a2 => simp at hb'
+      have hu' : dedup (md.args.flatMap Arg.spaces) = [t] := hu
+      simp only [stubArgs, walk, docApply, List.flatMap_append, hargs, hc, hop, hcma, hig, hoo, hu, hu',
+        docIndirection_find md.args hfind]
+      simp [hbc, hr, hm, hq, hf, hc, hig, hfo, hcon, fsCalls, funcCalls, Metadata.findFunc, stubExpand,
+        List.flatMap_cons]
+    | field dt vec a2 fs st m => simp [hfind] at hsame
+    | op a2 t f => simp [hfind] at hsame
+    | scalar dt a2 => simp [hfind] at hsame
+
+/-- structure of a matrix-matrix kernel: CMA operators and scalars only -/
+def validMatrixMatrix (md : Metadata) : Bool := md.args.all fun a => a.isCma || a.isScalar
+
+/-- **documented order, CMA matrix-matrix kernels** (no side condition) -/
+theorem C21_doc_cma_matrix_matrix : ∀ md : Metadata, validMatrixMatrix md = true →
+    docSection md = some .cmaMatrixMatrix → stubArgs md = docMatrixMatrix md := by
+  intro md hvm hsec
+  obtain ⟨hbc, hig, hoo, hp, hc⟩ := section_cma hsec (Or.inr (Or.inr rfl))
+  have hc : md.cmaOp = .matrixMatrix := by
+    rcases hc with ⟨h, _⟩ | ⟨h, _⟩ | ⟨_, h⟩
+    · cases h
+    · cases h
+    · exact h
+  have hcma : md.hasCma = true := cmaOp_hasCma (by rw [hc]; simp)
+  have hop : md.hasOperator = true := hasCma_hasOperator hcma
+  obtain ⟨hf, _, hr, hm⟩ := plain_facts hp
+  have hq := plain_qrShapes hf
+  have hargs : (md.args.flatMap argCalls).flatMap (stubExpand md) = md.args.flatMap docMatrixMatrixArg := by
+    rw [flatMap_flatMap_c21]
+    apply flatMap_congr_mem
+    intro b hb
+    have hb' := List.all_eq_true.mp hvm b hb
+    cases b with
+    | cma a2 t' f' => exact cmaOperator_doc md a2 t' f'
+    | scalar dt a2 => simp [argCalls, docMatrixMatrixArg, stubExpand, List.flatMap_cons]
+    | field dt vec a2 fs st m => simp [Arg.isCma, Arg.isScalar] at hb'
+    | op a2 t' f' => simp [Arg.isCma, Arg.isScalar] at hb'
+  have hnof : ∀ fs, md.fieldOnSpace fs = false := by
+    intro fs
+    unfold Metadata.fieldOnSpace
+    rw [List.any_eq_false]
+    intro a ha
+    have := List.all_eq_true.mp hvm a ha
+    cases a <;> simp_all [Arg.isField, Arg.isCma, Arg.isScalar]
+  have hfss : (md.uniqueFss.flatMap (fsCalls md)).flatMap (stubExpand md) = [] := by
+    rw [flatMap_flatMap_c21]
+    rw [List.flatMap_eq_nil_iff]
+    intro fs _
+    simp only [fsCalls, hc, hig, hbc, hnof fs, Metadata.findFunc, hf, List.find?_nil, funcCalls]
+    by_cases h2 : md.cmaOnSpace fs = true <;> simp [h2]
+  simp only [stubArgs, walk, docMatrixMatrix, List.flatMap_append, hargs, hfss, hc, hop, hcma, hig, hoo]
+  simp [hbc, hr, hm, hq, stubExpand, List.flatMap_cons]
+
+
+theorem noOperator_noCma {md : Metadata} (h : md.hasOperator = false) : md.hasCma = false := by
+  unfold Metadata.hasOperator at h
+  unfold Metadata.hasCma
+  rw [List.any_eq_false] at h ⊢
+  intro a ha
+  have := h a ha
+  simp only [Bool.or_eq_true, not_or] at this
+  exact this.2
+
+/-- rule 3 against the per-argument part of the walk, PSy-layer side -/
+theorem arg_doc_call {md : Metadata} {a : Arg} (hc : a.isCma = false) (hx : a.notXory1d = true) :
+    (argCalls a).flatMap (callExpand md) = docArg a := by
+  cases a with
+  | field dt vec acc fs st m =>
+    cases st <;> simp [Arg.notXory1d] at hx <;>
+      by_cases hv : vec > 1 <;>
+      simp [argCalls, stencilCalls, docArg, docStencil, callExpand, callExpandWith, hv, List.flatMap_cons]
+  | op acc t f => simp [argCalls, docArg, callExpand, callExpandWith, List.flatMap_cons]
+  | cma acc t f => simp [Arg.isCma] at hc
+  | scalar dt acc => simp [argCalls, docArg, callExpand, callExpandWith, List.flatMap_cons]
+
+theorem section_intergrid {md : Metadata} (h : docSection md = some .interGrid) :
+    md.bc = .none ∧ md.isIntergrid = true ∧ md.operatesOn = .cellColumn ∧ md.hasOperator = false ∧
+    md.plain = true := by
+  unfold docSection at h
+  split at h
+  · simp at h
+  · rename_i h1
+    simp only [Bool.or_eq_true, not_or] at h1
+    have hbc : md.bc = .none := by simpa using h1.1
+    split at h
+    · rename_i hig
+      split at h
+      · rename_i hc
+        simp only [Bool.and_eq_true] at hc
+        exact ⟨hbc, hig, by simpa using hc.1.1, by simpa using hc.1.2, hc.2⟩
+      · simp at h
+    · split at h
+      · split at h <;> simp at h
+      · split at h
+        · simp at h
+        all_goals (split at h <;> simp at h)
+
+/-- structure of an inter-grid kernel: there is a field on every function space (only fields are
+permitted) -/
+def validInterGrid (md : Metadata) : Bool := md.uniqueFss.all md.fieldOnSpace
+
+/-- **documented order, inter-grid kernels** (PSy-layer side; the stub generator refuses them) -/
+theorem C21_doc_intergrid : ∀ md : Metadata, docSide md = true → validInterGrid md = true →
+    docSection md = some .interGrid → callArgs md = docInterGrid md := by
+  intro md hside hvi hsec
+  obtain ⟨hbc, hig, hoo, hnop, hp⟩ := section_intergrid hsec
+  have hcma := noOperator_noCma hnop
+  have hc := noCma_cmaOp hcma
+  obtain ⟨hf, _, hr, hm⟩ := plain_facts hp
+  have hq := plain_qrShapes hf
+  simp only [docSide, Bool.and_eq_true] at hside
+  have hargs : (md.args.flatMap argCalls).flatMap (callExpand md) = md.args.flatMap docArg := by
+    rw [flatMap_flatMap_c21]
+    apply flatMap_congr_mem
+    intro a ha
+    refine arg_doc_call ?_ (List.all_eq_true.mp hside.1 a ha)
+    have := List.any_eq_false.mp (by simpa [Metadata.hasCma] using hcma) a ha
+    simpa using this
+  have hfss : (md.uniqueFss.flatMap (fsCalls md)).flatMap (callExpand md)
+      = (dedup (md.args.flatMap Arg.spaces)).flatMap (docInterGridSpace md) := by
+    rw [flatMap_flatMap_c21]
+    apply flatMap_congr_mem
+    intro fs hfs
+    have hfo : md.fieldOnSpace fs = true := List.all_eq_true.mp hvi fs hfs
+    simp only [fsCalls, docInterGridSpace, hc, hig, hbc, hfo, noCma_cmaOnSpace hcma, Metadata.findFunc, hf,
+      List.find?_nil, funcCalls, List.flatMap_append]
+    cases hfine : md.fineSpace fs <;>
+      simp [callExpand, callExpandWith, cellOrDomain, hoo, List.flatMap_cons]
+  simp only [callArgs, walk, docInterGrid, List.flatMap_append, hargs, hfss, hc, hnop, hcma, hig, hoo]
+  simp [hbc, hr, hm, hq, callExpand, callExpandWith, cellOrDomain, hoo, List.flatMap_cons]
+
+theorem section_domain {md : Metadata} (h : docSection md = some .domain) :
+    md.bc = .none ∧ md.isIntergrid = false ∧ md.operatesOn = .domain ∧ md.hasOperator = false ∧
+    md.plain = true := by
+  unfold docSection at h
+  split at h
+  · simp at h
+  · rename_i h1
+    simp only [Bool.or_eq_true, not_or] at h1
+    have hbc : md.bc = .none := by simpa using h1.1
+    split at h
+    · split at h <;> simp at h
+    · rename_i hig
+      split at h
+      · rename_i hdom
+        split at h
+        · rename_i hc
+          simp only [Bool.and_eq_true] at hc
+          exact ⟨hbc, by simpa using hig, by simpa using hdom, by simpa using hc.1, hc.2⟩
+        · simp at h
+      · split at h
+        · simp at h
+        all_goals (split at h <;> simp at h)
+
+/-- rule 4 with the whole (rank-2) dofmap: what is implemented for domain kernels -/
+def docSpaceWhole (md : Metadata) (fs : FS) : List Atom :=
+  [Atom.ndf] ++ (if md.fieldOnSpace fs then [Atom.undf, Atom.dofmapWhole] else [])
+
+/-- the documented list of a domain kernel with the rank-1 dofmap of rule 4.2.2 replaced by the
+whole dofmap -/
+def docDomainWhole (md : Metadata) : List Atom :=
+  [Atom.nlayers, .ncell2dNoHalos] ++ md.args.flatMap docArg ++
+  (dedup (md.args.flatMap Arg.spaces)).flatMap (docSpaceWhole md)
+
+def Atom.wholeMap : Atom → Atom
+  | .dofmap => .dofmapWhole
+  | a => a
+
+/-- **documented order, domain kernels** (PSy-layer side): the call is the documented list except that
+every dofmap is the whole dofmap -/
+theorem C21_doc_domain_partial : ∀ md : Metadata, docSide md = true →
+    docSection md = some .domain → callArgs md = docDomainWhole md := by
+  intro md hside hsec
+  obtain ⟨hbc, hig, hoo, hnop, hp⟩ := section_domain hsec
+  have hcma := noOperator_noCma hnop
+  have hc := noCma_cmaOp hcma
+  obtain ⟨hf, _, hr, hm⟩ := plain_facts hp
+  have hq := plain_qrShapes hf
+  simp only [docSide, Bool.and_eq_true] at hside
+  have hargs : (md.args.flatMap argCalls).flatMap (callExpand md) = md.args.flatMap docArg := by
+    rw [flatMap_flatMap_c21]
+    apply flatMap_congr_mem
+    intro a ha
+    refine arg_doc_call ?_ (List.all_eq_true.mp hside.1 a ha)
+    have := List.any_eq_false.mp (by simpa [Metadata.hasCma] using hcma) a ha
+    simpa using this
+  have hfss : (md.uniqueFss.flatMap (fsCalls md)).flatMap (callExpand md)
+      = (dedup (md.args.flatMap Arg.spaces)).flatMap (docSpaceWhole md) := by
+    rw [flatMap_flatMap_c21]
+    apply flatMap_congr_mem
+    intro fs _
+    simp only [fsCalls, docSpaceWhole, hc, hig, hbc, noCma_cmaOnSpace hcma, Metadata.findFunc, hf,
+      List.find?_nil, funcCalls, List.flatMap_append]
+    by_cases hfo : md.fieldOnSpace fs = true <;>
+      simp [hfo, callExpand, callExpandWith, cellOrDomain, hoo, List.flatMap_cons]
+  simp only [callArgs, walk, docDomainWhole, List.flatMap_append, hargs, hfss, hc, hnop, hcma, hig, hoo]
+  simp [hbc, hr, hm, hq, callExpand, callExpandWith, cellOrDomain, hoo, List.flatMap_cons]
+
+theorem docArg_wholeMap (a : Arg) : (docArg a).map Atom.wholeMap = docArg a := by
+  cases a with
+  | field dt vec acc fs st m =>
+    cases st <;> by_cases hv : vec > 1 <;> simp [docArg, docStencil, hv, Atom.wholeMap]
+  | op acc t f => simp [docArg, Atom.wholeMap]
+  | cma acc t f => simp [docArg]
+  | scalar dt acc => simp [docArg, Atom.wholeMap]
+
+/-- `docDomainWhole` is exactly the documented list with `dofmap ↦ whole dofmap` -/
+theorem C21_doc_domain_whole_is_doc : ∀ md : Metadata, docSection md = some .domain →
+    docDomainWhole md = (docDomain md).map Atom.wholeMap := by
+  intro md hsec
+  obtain ⟨_, _, _, _, hp⟩ := section_domain hsec
+  obtain ⟨hf, hs, hr, hm⟩ := plain_facts hp
+  have h1 : (md.args.flatMap docArg).map Atom.wholeMap = md.args.flatMap docArg := by
+    rw [List.map_flatMap]
+    apply flatMap_congr_mem
+    intro a _
+    exact docArg_wholeMap a
+  have h2 : ((dedup (md.args.flatMap Arg.spaces)).flatMap (docSpace md)).map Atom.wholeMap
+      = (dedup (md.args.flatMap Arg.spaces)).flatMap (docSpaceWhole md) := by
+    rw [List.map_flatMap]
+    apply flatMap_congr_mem
+    intro fs _
+    by_cases hfo : md.fieldOnSpace fs = true <;>
+      simp [docSpace, docSpaceWhole, docFuncs, Metadata.findFunc, hf, hfo, Atom.wholeMap]
+  simp only [docDomain, docDomainWhole, List.map_append, h1, h2]
+  simp [docRefElement, docMesh, docQuadrature, hr, hm, hs, dedup, dedupAux, Atom.wholeMap]
+
+
+theorem cmaOp_none_noCma {md : Metadata} (h : md.cmaOp = .none) : md.hasCma = false := by
+  unfold Metadata.cmaOp at h
+  by_cases he : (md.args.filter Arg.isCma).isEmpty = true
+  · unfold Metadata.hasCma
+    rw [List.any_eq_false]
+    intro a ha hc
+    have : a ∈ md.args.filter Arg.isCma := List.mem_filter.mpr ⟨ha, hc⟩
+    rw [List.isEmpty_iff.mp he] at this
+    simp at this
+  · exfalso
+    have he' : (md.args.filter Arg.isCma).isEmpty = false := by simpa using he
+    simp only [he', Bool.false_eq_true, if_false] at h
+    split at h
+    · simp at h
+    · split at h <;> simp at h
+
+theorem section_general {md : Metadata} (h : docSection md = some .general) : docScope md = true := by
+  unfold docSection at h
+  split at h
+  · simp at h
+  · rename_i h1
+    simp only [Bool.or_eq_true, not_or] at h1
+    have hbc : md.bc = .none := by simpa using h1.1
+    have hdof : md.operatesOn ≠ .dof := by simpa using h1.2
+    split at h
+    · split at h <;> simp at h
+    · rename_i hig
+      split at h
+      · split at h <;> simp at h
+      · rename_i hdom
+        have hcc : md.operatesOn = .cellColumn := by
+          cases hoo : md.operatesOn <;> simp_all
+        split at h
+        · rename_i hc
+          simp [docScope, hcc, cmaOp_none_noCma hc, hbc, hig]
+        all_goals (split at h <;> simp at h)
+
+/-- the side conditions of all sub-sections: `docSide` (xory1d direction, diff-basis-first) plus,
+per sub-section, the structural validity `LFRicKernMetadata` enforces and the exclusion of the
+documented-vs-implemented difference of that sub-section; domain kernels always differ
+(`C21_doc_domain_partial` states what holds instead) -/
+def docSideAll (md : Metadata) : Bool :=
+  docSide md &&
+  match docSection md with
+  | some .cmaAssembly => lmaFirstOnly md
+  | some .cmaApply => validApply md && applySameSpace md
+  | some .cmaMatrixMatrix => validMatrixMatrix md
+  | some .interGrid => validInterGrid md
+  | some .domain => false
+  | _ => true
+
+/-- **C21 (documented order), all sub-sections of the user guide**: under the side conditions the
+stub's list (inter-grid: the call's list, there is no stub) is exactly the documented one, and so is
+the call's list whenever a stub exists. -/
+theorem C21_doc_all_partial : ∀ md : Metadata, Valid md → docSideAll md = true →
+    ∀ d, docOrderAll md = some d →
+      (docSection md = some .interGrid → callArgs md = d) ∧
+      (docSection md ≠ some .interGrid → stubArgs md = d ∧ (StubSupported md → callArgs md = d)) := by
+  intro md hv hside d hd
+  unfold docOrderAll at hd
+  simp only [docSideAll, Bool.and_eq_true] at hside
+  obtain ⟨hs1, hs2⟩ := hside
+  cases hsec : docSection md with
+  | none => simp [hsec] at hd
+  | some sec =>
+    simp only [hsec, Option.map_some, Option.some.injEq] at hd
+    subst hd
+    have key : sec ≠ .interGrid → stubArgs md = docOrderOf md sec := by
+      intro hne
+      cases sec with
+      | general =>
+        have hsc := section_general hsec
+        exact C21_doc_partial md hv hs1 _ (by simp [docOrder, hsc, docOrderOf])
+      | cmaAssembly => simp only [hsec] at hs2; exact C21_doc_cma_assembly md hs1 hs2 hsec
+      | cmaApply =>
+        simp only [hsec, Bool.and_eq_true] at hs2
+        exact C21_doc_cma_apply md hs2.1 hs2.2 hsec
+      | cmaMatrixMatrix => simp only [hsec] at hs2; exact C21_doc_cma_matrix_matrix md hs2 hsec
+      | interGrid => exact absurd rfl hne
+      | domain => simp [hsec] at hs2
+    constructor
+    · intro hi
+      injection hi with hi
+      subst hi
+      simp only [hsec] at hs2
+      exact C21_doc_intergrid md hs1 hs2 hsec
+    · intro hne
+      have hne' : sec ≠ .interGrid := fun h => hne (by rw [h])
+      exact ⟨key hne', fun hss => by rw [callArgs_eq_stubArgs hss]; exact key hne'⟩
+
+/-! #### witnesses of the further documentation-vs-code differences, and non-vacuity -/
+
+/-- assembly kernel whose LMA operator is not the first argument -/
+def witnessAssembly : Metadata :=
+  { operatesOn := .cellColumn, args := [.cma .write 0 1, .op .read 0 1]
+    funcs := [], shapes := [], targets := [], refelem := [], mesh := [], bc := .none }
+/-- application kernel with different to- and from-spaces -/
+def witnessApply : Metadata :=
+  { operatesOn := .cellColumn
+    args := [.field .real 1 .inc 0 .none .none, .field .real 1 .read 1 .none .none, .cma .read 0 1]
+    funcs := [], shapes := [], targets := [], refelem := [], mesh := [], bc := .none }
+/-- the simplest domain kernel -/
+def witnessDomain : Metadata :=
+  { operatesOn := .domain, args := [.scalar .real .read, .field .real 1 .readwrite 9 .none .none]
+    funcs := [], shapes := [], targets := [], refelem := [], mesh := [], bc := .none }
+
+/-- the full documentation clause over all sub-sections -/
+def C21_doc_all_statement : Prop :=
+  ∀ md : Metadata, Valid md → ∀ d, docOrderAll md = some d → callArgs md = d
+
+theorem C21_doc_cma_assembly_counterexample :
+    Valid witnessAssembly ∧ StubSupported witnessAssembly ∧
+    docOrderAll witnessAssembly ≠ some (stubArgs witnessAssembly) ∧
+    docOrderAll witnessAssembly ≠ some (callArgs witnessAssembly) := by decide
+
+theorem C21_doc_cma_apply_counterexample :
+    Valid witnessApply ∧ StubSupported witnessApply ∧ validApply witnessApply = true ∧
+    docOrderAll witnessApply ≠ some (stubArgs witnessApply) ∧
+    docOrderAll witnessApply ≠ some (callArgs witnessApply) := by decide
+
+theorem C21_doc_domain_counterexample :
+    Valid witnessDomain ∧ docSection witnessDomain = some .domain ∧
+    docOrderAll witnessDomain ≠ some (callArgs witnessDomain) := by decide
+
+theorem C21_doc_all_counterexample : ¬ C21_doc_all_statement := by
+  intro h
+  have := h witnessDomain (by decide) _ rfl
+  revert this
+  decide
+
+/-- non-vacuity of every sub-section of `C21_doc_all_partial` -/
+def exAssembly : Metadata :=
+  { operatesOn := .cellColumn, args := [.op .read 0 1, .cma .write 0 1, .field .real 1 .read 1 .none .none, .scalar .real .read]
+    funcs := [], shapes := [], targets := [], refelem := [], mesh := [], bc := .none }
+def exApply : Metadata :=
+  { operatesOn := .cellColumn
+    args := [.field .real 1 .inc 2 .none .none, .cma .read 2 2, .field .real 1 .read 2 .none .none]
+    funcs := [], shapes := [], targets := [], refelem := [], mesh := [], bc := .none }
+def exMatrixMatrix : Metadata :=
+  { operatesOn := .cellColumn, args := [.cma .write 0 1, .scalar .real .read, .cma .read 1 1]
+    funcs := [], shapes := [], targets := [], refelem := [], mesh := [], bc := .none }
+def exInterGrid : Metadata :=
+  { operatesOn := .cellColumn
+    args := [.field .real 3 .inc 1 .none .fine, .field .real 1 .read 2 .none .coarse]
+    funcs := [], shapes := [], targets := [], refelem := [], mesh := [], bc := .none }
+example : Valid exAssembly ∧ docSideAll exAssembly = true ∧ docSection exAssembly = some .cmaAssembly ∧
+    docOrderAll exAssembly = some (stubArgs exAssembly) ∧ (stubArgs exAssembly).length = 21 := by decide
+example : Valid exApply ∧ docSideAll exApply = true ∧ docSection exApply = some .cmaApply ∧
+    docOrderAll exApply = some (callArgs exApply) := by decide
+example : Valid exMatrixMatrix ∧ docSideAll exMatrixMatrix = true ∧
+    docSection exMatrixMatrix = some .cmaMatrixMatrix ∧
+    docOrderAll exMatrixMatrix = some (stubArgs exMatrixMatrix) := by decide
+example : Valid exInterGrid ∧ docSideAll exInterGrid = true ∧ docSection exInterGrid = some .interGrid ∧
+    docOrderAll exInterGrid = some (callArgs exInterGrid) ∧ stubRefusal exInterGrid = some .intergrid := by decide
+example : docSide witnessDomain = true ∧ callArgs witnessDomain = docDomainWhole witnessDomain ∧
+    docDomainWhole witnessDomain = [.nlayers, .ncell2dNoHalos, .scalar .real .read, .fieldData .real .readwrite,
+      .ndf, .undf, .dofmapWhole] := by decide
+
+/-- The user guide (rules 5.1-5.3) documents the reference-element normals arrays as `integer`; the
+stub declares (and the PSy layer passes) `real(r_def)` arrays, as the LFRic infrastructure does. -/
+theorem C21_doc_refarray_type_counterexample :
+    ∀ p : RefProp, (Gen.stubSig (.refArray p)).map Sig.ty = some Ty.real ∧
+      (Gen.stubSig (.refArray p)).map Sig.ty ≠ some docRefArrayTy := by
+  intro p; cases p <;> decide
+
+/-! ### the OpenACC data-region list (`KernCallAccArgList`) -/
+
+/-- arguments whose data lives in an array that must be present on the device (a stencil size is
+passed as an element of a pointer array) -/
+def Atom.isArray : Atom → Bool
+  | .cellMap | .fieldData _ _ | .stencilSize | .stencilSize2d | .stencilMap | .stencilMap2d
+  | .opData _ | .cmaMatrix _ | .dofmap | .dofmapWhole | .bandedMap | .indirectionMap
+  | .basisQuad | .basisEval | .diffBasisQuad | .diffBasisEval | .boundaryDofs | .refArray _
+  | .adjacentFace | .weightsXy | .weightsZ | .weightsXyz => true
+  | _ => false
+
+/-- the device array behind an actual argument: a dofmap column is a section of the whole dofmap -/
+def Atom.device : Atom → Atom
+  | .dofmap => .dofmapWhole
+  | a => a
+
+/-- the actual argument of this class has rank ≥ 1 according to the generated table -/
+def Atom.callRankPositive (a : Atom) : Bool :=
+  match Gen.callSig a with
+  | some s => decide (s.rank ≥ 1)
+  | none => false
+
+/-- link with the generated table: every actual of rank ≥ 1 is classified as an array -/
+theorem C21_acc_isArray_of_rank : ∀ a : Atom, a.callRankPositive = true → a.isArray = true := by
+  intro a
+  cases a <;> (try (rename_i x y; cases x <;> cases y)) <;> (try (rename_i x; cases x)) <;> decide
+
+theorem acc_expand_covers {md : Metadata} (hoo : md.operatesOn = .cellColumn) {c : Call} {a : Atom}
+    (h : a ∈ callExpand md c) (ha : a.isArray = true) : a.device ∈ accExpand md c := by
+  cases c <;> simp only [callExpand, callExpandWith] at h
+  case cellMap => simp at h; rcases h with h | h | h | h <;> subst h <;> simp [Atom.isArray] at ha <;> simp [accExpand, Atom.device]
+  case operator acc => simp at h; rcases h with h | h <;> subst h <;> simp [Atom.isArray] at ha <;> simp [accExpand, Atom.device]
+  case scalar dt acc => simp at h; subst h; simp [Atom.isArray] at ha
+  case fsCompulsoryField =>
+    simp [hoo] at h
+    rcases h with h | h <;> subst h <;> simp [Atom.isArray] at ha <;> simp [accExpand, Atom.device, hoo]
+  case fsIntergrid fine =>
+    cases fine <;> simp [hoo, cellOrDomain] at h
+    · rcases h with h | h <;> subst h <;> simp [Atom.isArray] at ha <;> simp [accExpand, Atom.device, hoo]
+    · rcases h with h | h | h <;> subst h <;> simp [Atom.isArray] at ha <;> simp [accExpand, Atom.device]
+  case basis =>
+    simp only [Bool.false_eq_true, if_false] at h
+    have : a.device = a := by rcases mem_basisByShape h with h' | h' <;> subst h' <;> rfl
+    rw [this]; simpa [accExpand, callExpand, callExpandWith] using h
+  case diffBasis =>
+    simp only [Bool.false_eq_true, if_false] at h
+    have : a.device = a := by rcases mem_basisByShape h with h' | h' <;> subst h' <;> rfl
+    rw [this]; simpa [accExpand, callExpand, callExpandWith] using h
+  case refElement =>
+    have : a.device = a := by rcases mem_refAtoms h with ⟨k, rfl⟩ | ⟨p, rfl⟩ <;> rfl
+    rw [this]; simpa [accExpand, callExpand, callExpandWith] using h
+  case meshProperties =>
+    have : a.device = a := by rcases mem_meshAtoms h with h' | h' <;> subst h' <;> rfl
+    rw [this]; simpa [accExpand, callExpand, callExpandWith] using h
+  case quadRule =>
+    have : a.device = a := by
+      simp only [List.mem_flatMap] at h
+      obtain ⟨s, _, hs⟩ := h
+      rcases mem_qrAtoms hs with h' | h' | h' | h' | h' | h' | h' | h' <;> subst h' <;> rfl
+    rw [this]; simpa [accExpand, callExpand, callExpandWith] using h
+  case fieldVector dt acc n =>
+    have := List.eq_of_mem_replicate h; subst this
+    simpa [accExpand, callExpand, callExpandWith, Atom.device] using h
+  case cmaOperator acc same =>
+    have : a.device = a := by
+      simp only [List.mem_cons, List.mem_map] at h
+      rcases h with rfl | ⟨p, _, rfl⟩ <;> rfl
+    rw [this]; simpa [accExpand, callExpand, callExpandWith] using h
+  case meshHeight => split at h <;> simp at h; subst h; simp [Atom.isArray] at ha
+  case fsCommon => split at h <;> simp at h; subst h; simp [Atom.isArray] at ha
+  all_goals (simp at h)
+  all_goals first
+    | (subst h; simp [accExpand, callExpand, callExpandWith, Atom.device])
+    | (rcases h with h | h <;> subst h <;> simp [accExpand, callExpand, callExpandWith, Atom.device])
+
+/-- **C21 for the OpenACC variant** (`KernCallAccArgList`, the list from which `ACCEnterDataTrans`
+builds the data region): for every kernel that operates on cell columns, the device array behind
+every array argument of the kernel call is named in the OpenACC list. -/
+theorem C21_acc_covers_arrays : ∀ md : Metadata, md.operatesOn = .cellColumn →
+    ∀ a ∈ callArgs md, a.isArray = true → a.device ∈ accArgs md := by
+  intro md hoo a ha harr
+  simp only [callArgs, List.mem_flatMap] at ha
+  obtain ⟨c, hc, hac⟩ := ha
+  simp only [accArgs, List.mem_flatMap]
+  exact ⟨c, hc, acc_expand_covers hoo hac harr⟩
+
+/-- … and nothing but scalars, sizes and the operator proxy is added: every array of the OpenACC list is
+the device array of an actual argument (cell-column kernels) -/
+theorem C21_acc_only_call_arrays : ∀ md : Metadata, md.operatesOn = .cellColumn →
+    ∀ a ∈ accArgs md, a.isArray = true → ∃ b ∈ callArgs md, b.device = a := by
+  intro md hoo a ha harr
+  simp only [accArgs, List.mem_flatMap] at ha
+  obtain ⟨c, hc, hac⟩ := ha
+  have key : ∃ b ∈ callExpand md c, b.device = a := by
+    cases c <;> simp only [accExpand] at hac
+    case cellMap =>
+      simp at hac; rcases hac with h | h <;> subst h
+      · exact ⟨.cellMap, by simp [callExpand, callExpandWith], rfl⟩
+      · simp [Atom.isArray] at harr
+    case operator acc =>
+      simp at hac; rcases hac with h | h | h <;> subst h
+      · simp [Atom.isArray] at harr
+      · simp [Atom.isArray] at harr
+      · exact ⟨.opData acc, by simp [callExpand, callExpandWith], rfl⟩
+    case scalar dt acc => simp at hac
+    case fsCompulsoryField =>
+      simp [hoo] at hac; rcases hac with h | h <;> subst h
+      · simp [Atom.isArray] at harr
+      · exact ⟨.dofmap, by simp [callExpand, callExpandWith, hoo], rfl⟩
+    case fsIntergrid fine =>
+      cases fine <;> simp [hoo] at hac
+      · rcases hac with h | h <;> subst h
+        · simp [Atom.isArray] at harr
+        · exact ⟨.dofmap, by simp [callExpand, callExpandWith, hoo], rfl⟩
+      · subst hac
+        exact ⟨.dofmapWhole, by simp [callExpand, callExpandWith], rfl⟩
+    case basis =>
+      simp only [callExpand, callExpandWith, Bool.false_eq_true, if_false] at hac
+      exact ⟨a, by simpa [callExpand, callExpandWith] using hac,
+        by rcases mem_basisByShape hac with h' | h' <;> subst h' <;> rfl⟩
+    case diffBasis =>
+      simp only [callExpand, callExpandWith, Bool.false_eq_true, if_false] at hac
+      exact ⟨a, by simpa [callExpand, callExpandWith] using hac,
+        by rcases mem_basisByShape hac with h' | h' <;> subst h' <;> rfl⟩
+    case refElement =>
+      simp only [callExpand, callExpandWith] at hac
+      exact ⟨a, by simpa [callExpand, callExpandWith] using hac,
+        by rcases mem_refAtoms hac with ⟨k, rfl⟩ | ⟨p, rfl⟩ <;> rfl⟩
+    case meshProperties =>
+      simp only [callExpand, callExpandWith] at hac
+      exact ⟨a, by simpa [callExpand, callExpandWith] using hac,
+        by rcases mem_meshAtoms hac with h' | h' <;> subst h' <;> rfl⟩
+    case quadRule =>
+      simp only [callExpand, callExpandWith] at hac
+      refine ⟨a, by simpa [callExpand, callExpandWith] using hac, ?_⟩
+      simp only [List.mem_flatMap] at hac
+      obtain ⟨s, _, hs⟩ := hac
+      rcases mem_qrAtoms hs with h' | h' | h' | h' | h' | h' | h' | h' <;> subst h' <;> rfl
+    case fieldVector dt acc n =>
+      simp only [callExpand, callExpandWith] at hac
+      have := List.eq_of_mem_replicate hac
+      exact ⟨a, by simpa [callExpand, callExpandWith] using hac, by subst this; rfl⟩
+    case cmaOperator acc same =>
+      simp only [callExpand, callExpandWith] at hac
+      refine ⟨a, by simpa [callExpand, callExpandWith] using hac, ?_⟩
+      simp only [List.mem_cons, List.mem_map] at hac
+      rcases hac with rfl | ⟨p, _, rfl⟩ <;> rfl
+    case meshHeight =>
+      simp only [callExpand, callExpandWith] at hac
+      split at hac <;> simp at hac; subst hac; simp [Atom.isArray] at harr
+    case fsCommon =>
+      simp only [callExpand, callExpandWith] at hac
+      split at hac <;> simp at hac; subst hac; simp [Atom.isArray] at harr
+    all_goals (simp only [callExpand, callExpandWith] at hac; simp at hac)
+    all_goals first
+      | exact ⟨a, by rw [hac]; simp [callExpand, callExpandWith], by rw [hac]; rfl⟩
+      | (rw [hac] at harr; simp [Atom.isArray] at harr; done)
+      | (rcases hac with h | h <;> first
+          | exact ⟨a, by rw [h]; simp [callExpand, callExpandWith], by rw [h]; rfl⟩
+          | (rw [h] at harr; simp [Atom.isArray] at harr; done))
+  obtain ⟨b, hb, hba⟩ := key
+  exact ⟨b, by simp only [callArgs, List.mem_flatMap]; exact ⟨c, hc, hb⟩, hba⟩
+
+/-- domain kernels: `KernCallAccArgList.fs_compulsory_field` returns early unless the kernel operates
+on cell columns, so the whole dofmap the call passes is NOT named in the OpenACC list -/
+theorem C21_acc_domain_counterexample :
+    Atom.dofmapWhole ∈ callArgs witnessDomain ∧ Atom.dofmapWhole ∉ accArgs witnessDomain := by decide
 
 end C21
